@@ -73,6 +73,9 @@ def convert_const(name, T, ctx):
 
 def convert(t, var_names, assms, to_real, ctx):
     """Convert term t to Z3 input."""
+    # Names of variables introduced for quantifiers (bound in the Z3 formula)
+    bound_names = set()
+
     def rec(t):
         if t.is_var():
             z3_t = convert_const(t.name, t.T, ctx)
@@ -84,13 +87,22 @@ def convert(t, var_names, assms, to_real, ctx):
             var_names.append(nm)
             v = Var(nm, t.arg.var_T)
             z3_v = convert_const(nm, t.arg.var_T, ctx)
-            return z3.ForAll(z3_v, rec(t.arg.subst_bound(v)))
+            bound_names.add(nm)
+            body = rec(t.arg.subst_bound(v))
+            if t.arg.var_T == NatType:
+                # natural numbers are translated to integers: restrict the quantifier
+                body = z3.Implies(z3_v >= 0, body)
+            return z3.ForAll(z3_v, body)
         elif t.is_exists():
             nm = name.get_variant_name(t.arg.var_name, var_names)
             var_names.append(nm)
             v = Var(nm, t.arg.var_T)
             z3_v = convert_const(nm, t.arg.var_T, ctx)
-            return z3.Exists(z3_v, rec(t.arg.subst_bound(v)))
+            bound_names.add(nm)
+            body = rec(t.arg.subst_bound(v))
+            if t.arg.var_T == NatType:
+                body = z3.And(z3_v >= 0, body)
+            return z3.Exists(z3_v, body)
         elif t.is_number():
             return t.dest_number()
         elif t.is_implies():
@@ -132,7 +144,9 @@ def convert(t, var_names, assms, to_real, ctx):
             return rec(t.arg1) / rec(t.arg)
         elif t.is_comb('of_nat', 1):
             if t.get_type() == RealType:
-                if t.arg.is_var():
+                if t.arg.is_var() and t.arg.name not in bound_names:
+                    # A free natural number variable is replaced by a nonnegative
+                    # real constant. This is not possible for bound variables.
                     if t.arg.name not in to_real:
                         nm = name.get_variant_name("r" + t.arg.name, var_names)
                         var_names.append(nm)
